@@ -194,8 +194,9 @@ class RecorderX:
             me.rec["weights"] = np.array(w, dtype=float)
             return orig_res(w)
 
-        def cmw(beta):
-            out = orig_cmw(beta)
+        def cmw(beta, *a, **kw):
+            # (extra arguments are passed through: the observation point is "what the reweighter evaluated at beta")
+            out = orig_cmw(beta, *a, **kw)
             me.rec["metric"].append((float(beta), float(out[2]), float(out[1])))
             return out
         with contextlib.ExitStack() as st, _quiet(), warnings.catch_warnings():
@@ -520,6 +521,32 @@ def thin_target(rng, d):
     return prior, like
 
 
+def weak_target(rng, d):
+    """weakly informative likelihood (unit Gaussian under U(-2.5, 2.5)^d): the warm-up pool already has enough effective sample
+    size at beta = 1, so the temperature goes 0 -> 1 in ONE step (`_find_beta_upper_limit` returns 1.0 on its early exit)"""
+    mu = np.array([rng.uniform(-0.3, 0.3) for _ in range(d)])
+
+    def prior(u):
+        return 5.0 * u - 2.5
+
+    def like(x):
+        return -0.5 * float(np.sum((x - mu) ** 2))
+    return prior, like
+
+
+def wide_target(rng, d):
+    """unit Gaussian under U(-10, 10)^d: with a tight volume-variation target and few particles the dynamic mode HOLDS beta
+    (target below the metric at beta_prev although the ESS would allow an advance)"""
+    mu = np.array([rng.uniform(-1.0, 1.0) for _ in range(d)])
+
+    def prior(u):
+        return 20.0 * u - 10.0
+
+    def like(x):
+        return -0.5 * float(np.sum((x - mu) ** 2)) - 0.5 * d * math.log(2 * math.pi)
+    return prior, like
+
+
 def gen_config(rng, i, vv_choices=(0.5, 0.3, 0.2, 0.1), narrow=True):
     """one configuration of the lattice kernel x resampler x clustering x reweighting mode x boundary kind x target.
     The first four are cycled (every combination appears), the rest is drawn."""
@@ -542,6 +569,14 @@ def gen_config(rng, i, vv_choices=(0.5, 0.3, 0.2, 0.1), narrow=True):
         if rng.random() < 0.12:
             hole, n = "thin", min(n, 16)
             prior, like = thin_target(rng, d)
+        elif vv is None and rng.random() < 0.15:
+            hole, d = "weak", rng.choice([1, 1, 2])
+            n = rng.choice([16, 24, 32])
+            prior, like = weak_target(rng, d)
+        elif vv is not None and rng.random() < 0.5:
+            hole, d, n = "wide", 2, 32
+            vv = rng.choice([0.05, 0.04])
+            prior, like = wide_target(rng, d)
     bk = rng.choice(["hard", "hard", "periodic", "reflective", "mixed"])
     periodic = reflective = None
     if bk == "periodic":
@@ -570,7 +605,12 @@ def _tags(c, meta, rec):
     c.count("mode_vv" if meta["volume_variation"] is not None else "mode_ess")
     c.count("boundary_" + meta["boundary"])
     c.count("target_bimodal" if meta["bimodal"] else ("target_thin_support" if meta["hole"] == "thin" else
-                                                      ("target_hole" if meta["hole"] else "target_plain")))
+            ("target_weak(one-step to beta=1)" if meta["hole"] == "weak" else ("target_wide(tight vv)" if meta["hole"] == "wide" else
+             ("target_hole" if meta["hole"] else "target_plain")))))
+    bs = [it["beta"] for it in rec.impl]
+    c.count("runs_beta_0_to_1_in_one_step", int(any(a == 0.0 and b == 1.0 for a, b in zip(bs, bs[1:]))))
+    if meta["volume_variation"] is not None:
+        c.count("vv_iterations_holding_beta", sum(1 for a, b in zip(bs[1:], bs[2:]) if a == b and b < 1.0))
     c.count(f"d={meta['d']}")
     c.count("iterations", len(rec.impl))
     ann = [it for it in rec.impl if it["beta"] > 0]
